@@ -21,11 +21,13 @@ fn edit_strategy(depth: u32) -> BoxedStrategy<Edit> {
         4 => any::<u32>().prop_map(Edit::Flip),
         4 => (0u16..80, 0u8..10, any::<bool>()).prop_map(|(at, val, be)| Edit::SetU64 { at, val, be }),
         1 => any::<u32>().prop_map(Edit::Truncate),
+        2 => any::<u16>().prop_map(Edit::TruncateAt),
         1 => (any::<u16>(), any::<u8>()).prop_map(|(n, b)| Edit::Extend(n, b)),
         1 => (any::<u8>(), any::<u32>(), any::<u16>(), any::<u32>()).prop_map(|(from, src, len, dst)| Edit::Splice { from, src, len, dst }),
         3 => (any::<u16>(), 0u8..7).prop_map(|(slot, kind)| Edit::G1 { slot, kind }),
         4 => (any::<u16>(), 0u8..8).prop_map(|(slot, kind)| Edit::RawG1 { slot, kind }),
         2 => (any::<u16>(), 0u8..5).prop_map(|(slot, kind)| Edit::Scalar { slot, kind }),
+        2 => (any::<u16>(), 0u8..4).prop_map(|(slot, kind)| Edit::G2 { slot, kind }),
     ];
     if depth == 0 {
         leaf.boxed()
@@ -265,11 +267,13 @@ fn check(ctx: &Ctx, s: &Script) -> PResult {
             Edit::Flip(_) => "flip",
             Edit::SetU64 { .. } => "length-field",
             Edit::Truncate(_) => "truncate",
+            Edit::TruncateAt(_) => "truncate-at-boundary",
             Edit::Extend(..) => "extend",
             Edit::Splice { .. } => "splice",
             Edit::G1 { .. } => "crafted-g1",
             Edit::RawG1 { .. } => "crafted-raw-g1",
             Edit::Scalar { .. } => "crafted-scalar",
+            Edit::G2 { .. } => "crafted-g2",
             Edit::Inner(_) => "inner-payload",
         })
         .collect();
